@@ -227,6 +227,17 @@ func (ev *evaluator) eval(fr *evalFrame, v ssa.Value, depth int) (interface{}, b
 		}
 		return nil, false
 	case *ssa.Extract:
+		// (ok, index, rune) of a range over a string, as the loop table set it for this iteration
+		if nx, isNext := x.Tuple.(*ssa.Next); isNext {
+			if fr.vals != nil {
+				if tup, ok := fr.vals[nx]; ok {
+					if parts, isT := tup.([]interface{}); isT && x.Index < len(parts) {
+						return parts[x.Index], true
+					}
+				}
+			}
+			return nil, false
+		}
 		// one result of an inlined helper that returns several
 		if call, isCall := x.Tuple.(*ssa.Call); isCall {
 			if tup, ok := ev.leaf(fr, call); ok {
@@ -1100,6 +1111,35 @@ func (ev *evaluator) runCountedFrame(fr0 *evalFrame, maxIter int) ([]interface{}
 		}
 		for phi, v := range state {
 			fr.vals[phi] = v
+		}
+		// a range over a string yields its n-th rune in iteration n
+		for _, ins := range header.Instrs {
+			nx, ok := ins.(*ssa.Next)
+			if !ok || !nx.IsString {
+				continue
+			}
+			rg, ok := nx.Iter.(*ssa.Range)
+			if !ok {
+				continue
+			}
+			sv, ok := ev.eval(fr0, rg.X, 0)
+			str, isS := sv.(string)
+			if !ok || !isS {
+				ev.setFail("the string ranged over in " + fname(fn) + " is not evaluable")
+				return nil, "fail"
+			}
+			off, i := 0, 0
+			tuple := []interface{}{false, int64(0), int64(0)}
+			for pos, rn := range str {
+				if i == n {
+					tuple = []interface{}{true, int64(pos), int64(rn)}
+					off = 1
+					break
+				}
+				i++
+			}
+			_ = off
+			fr.vals[nx] = tuple
 		}
 		res, outcome := ev.runFrame(fr, header, func(b *ssa.BasicBlock) bool { return b == header })
 		if outcome != fmt.Sprintf("stop:%d", header.Index) {
